@@ -227,6 +227,9 @@ def main(argv=None) -> int:
     try:
         from harness import tables
         tables.regenerate()
+        # the numpy pipelines of the polygon constructors, translated from the source text of the working tree
+        from harness import pipelines
+        pipelines.regenerate()
     except Exception:
         traceback.print_exc()
         return 2
